@@ -313,6 +313,24 @@ def sampling_leaves_matrix_parameters_intact(c, layout):
         c.eq(f'{param}:joint_log_density_unchanged', J.logd(x=xv, y=xv + 1), j0, tol=1e-12)
 
 
+def conditioning_after_evaluation(c):
+    """a model whose domain geometry and a prior whose geometry are two equally configured objects: conditioning the joint on data gives the same kind of object,
+    evaluating to the same values, before and after a draw of the prior has been pushed through the model (evaluation only)"""
+    n = 3
+    G1 = cuqi.geometry.Continuous1D(n); G2 = cuqi.geometry.Continuous1D(n)
+    A = LinearModel(2 * np.eye(n), domain_geometry=G1, range_geometry=n)
+    x = Gaussian(np.zeros(n), 1.0, geometry=G2, name='x'); y = Gaussian(A(x), 1.0, name='y')
+    J = JointDistribution(y, x)
+    d = np.array([c.real(f'd{i}') for i in range(n)]); xv = np.array([c.real(f'x{i}') for i in range(n)])
+    P0 = J(y=d); v0 = P0.logd(xv)
+    np.random.seed(0); A(x.sample())                          # evaluation only
+    try: P1 = J(y=d)
+    except Exception as e:
+        c.fail('conditioning_still_works_after_a_model_evaluation', note=f"{type(e).__name__}: {e}"); return
+    c.holds('conditioning_gives_the_same_kind_of_object', type(P1) is type(P0))
+    c.eq('and_the_same_values', P1.logd(xv), v0, tol=1e-12)
+
+
 def gibbs_samplers_frame(c, iface):
     """running a Gibbs sampler (which conditions the joint over and over and hands values between blocks) on a hierarchical model: the distributions the
     model was built from - including the start points attached to the priors - evaluate as before, and chains already returned are not rewritten when the
@@ -363,6 +381,7 @@ def jobs(tier):
     J.append(Job('frame:BayesianProblem.sample_prior_leaves_the_problem_unchanged', problem_sample_prior, 'B', ['cuqi.problem._problem:BayesianProblem.sample_prior'], nnum=1))
     J.append(Job('frame:model_application_and_reconditioning', model_application, 'Pbox', FL))
     J.append(Job('frame:shared_geometry_object', shared_geometry, 'Pbox', ['cuqi.distribution._distribution:Distribution.geometry']))
+    J.append(Job('history:conditioning_after_a_model_was_evaluated_on_a_draw', conditioning_after_evaluation, 'B', ['cuqi.distribution._distribution:Distribution.geometry', 'cuqi.geometry._geometry:Geometry._all_values_equal'], nnum=1))
     for layout in ('C', 'F', 'transposed_view'):
         J.append(Job(f'frame:Gaussian.sample:full_dense_matrix_parameter:memory_layout={layout}', lambda c, l=layout: sampling_leaves_matrix_parameters_intact(c, l), 'B', ['cuqi.distribution._gaussian:Gaussian._sample'], nnum=2))
     for iface in ('legacy', 'experimental'):
